@@ -98,6 +98,8 @@ def children(v):
         return list(v.__dict__.values())
     if isinstance(v, (set, frozenset)):
         return list(v)
+    if isinstance(v, FailsMidway):
+        return list(v.items)        # what could be read before the iteration failed
     return []
 
 
@@ -297,9 +299,23 @@ class FalseBool(objs.Obj):
         return False
 
 
+class FailsMidway:
+    """an iterable (no __dict__, no keys) that yields two children and then fails: the readable children stay"""
+    __slots__ = ('items',)
+
+    def __init__(self, *items):
+        self.items = items
+
+    def __iter__(self):
+        for x in self.items:
+            yield x
+        raise RuntimeError('cursor lost')
+
+
 def side_targets():
     inner = {'a': 1}
     return {
+        'iterable-failing-midway': {'a': FailsMidway({'a': 1}, 2), 'b': [3, FailsMidway(4)], 'c': {'a': 5}},
         'falsy-objects-with-children': {'a': ZeroLen(a=1, k={'a': 2}), 'b': [FalseBool(a=3), ZeroLen()], 'c': FalseBool(k=ZeroLen(a=[4]))},
         'falsy-object-root': ZeroLen(a={'a': 1}, b=FalseBool(a=2)),
         'str-leaves': {'a': 'xyz', 'b': ['pq', {'a': 'r'}]},
